@@ -115,8 +115,10 @@ CHECKS = {
     'C20': dict(engine='pybmc', level='model_checking', design_ref='DESIGN.md#c20', note=BM_NOTE, technique=BM_TECH + '; crosshair for the sequential liveness-table part',
                 text='(a) Worker.acquire_by/release/is_available/is_locked and WorkerPool._acquire_all/release_all are compiled from source; two pools (threads) share 1-2 workers; z3 '
                      'decides over all interleavings: a pool that was told it owns a worker keeps is_locked(pool) until it releases, nobody releases an unlocked lock, no worker stays '
-                     'locked after the pool-level operations returned. Termination of blocking acquisition is outside the claim (deadlock observed, DESIGN.md). (b) sequential '
-                     'register/refresh/unregister/heartbeat histories of the registry and the liveness predicate with CrossHair.'),
+                     'locked after the pool-level operations returned. Termination of blocking acquisition is outside the claim (deadlock observed, DESIGN.md). (b) WorkerRegistry.'
+                     'refresh/register/unregister compiled from source, 2-4 threads on one address with symbolic heartbeat times: the final entry is the result of some sequential '
+                     'order (a late refresh never revives a dead worker nor moves a newer heartbeat backwards). (c) CrossHair: sequential registry histories, the liveness predicate '
+                     'is_alive <=> now - last < threshold over symbolic times, ownership invariants over 4-op histories of 2 pools x 2 workers, release on return and on raise.'),
 }
 NA = {'C14': 'Solver-based checking cannot reach it: the deciding mechanism is a cloudpickle round trip (C boundary: every symbolic value is realised at pickle.dumps) through a '
             'courier RPC transport that is not installed in the sandbox (the installed `courier` distribution has no Client/Server), driven by server threads and an '
